@@ -150,7 +150,11 @@ def step(d, n_ops):
             except Exception as e:
                 raise HarnessEscape(type(e).__name__)
             # invariant: nothing suspended => scope is what it was; documents untouched
-            if v.resolver.resolution_scope != scope0 or len(v.resolver._scopes_stack) != 1:
+            try:
+                scope_now = v.resolver.resolution_scope
+            except Exception:
+                return False, "scope-lost"           # the stack was popped below its base entry
+            if scope_now != scope0 or len(v.resolver._scopes_stack) != 1:
                 return False, "scope-leak"
             if x != x_snap or schema != snap_schema or store_docs != snap_docs or remote != snap_remote:
                 return False, "mutation"
